@@ -1440,3 +1440,122 @@ EXO = Unit('C14', 'taurex.opacity.exotransmit:ExoTransmitOpacity._load_exo_trans
                'temperature column t of that block (first column of a row = its pressure, skipped) times 10000 [m2 -> cm2] at the place of its '
                'own wavenumber after sorting; the reader adds 1e-60 to every value (recorded: the stored table differs from the file by that '
                'amount); tokenising abstract: float(token) = the number written there')
+
+
+# ------------------------------------------------------------------ HitranCIA.compute_final_grid: the ranges of a HITRAN file unified into one table
+def _hf_fx(c):
+    return c.fixed if c.mode != 'conc' else c.values
+
+
+def _hf_params(c):
+    fx = _hf_fx(c)
+    R, NT = fx['R'], fx['NT']
+    grids = {}
+    for r in range(R):
+        L = c.int('L%d' % r)
+        if c.mode == 'conc':
+            grids['range%d' % r] = dict(__obj__='HitranCiaGrid', wn=c.array('wn%d' % r, (L,)), Tsigma=[(c.real('T%d' % t), c.array('s%d_%d' % (r, t), (L,))) for t in range(NT)])
+        else:
+            grids['range%d' % r] = ObjSpec('HitranCiaGrid', wn=c.array('wn%d' % r, (L,)), Tsigma=[(c.real('T%d' % t), c.array('s%d_%d' % (r, t), (L,))) for t in range(NT)])
+    return dict(self=ObjSpec('HitranCIA', _wn_dict=grids, _temperature_grid=[c.real('T%d' % t) for t in range(NT)], _wavenumber_grid=None, _xsec_grid=None))
+
+
+def _hf_post(c, v0, v1, r):
+    fx = _hf_fx(c)
+    R, NT = fx['R'], fx['NT']
+    s = v1.self
+    Ls = [c.Len(v0.self._wn_dict['range%d' % k]['wn'] if c.mode == 'conc' else v0.self._wn_dict['range%d' % k].wn) for k in range(R)]
+    N = Ls[0]
+    for x in Ls[1:]:
+        N = N + x
+    G = s._wavenumber_grid
+    d = {'one_point_per_point_of_every_range': c.Len(G) == N,
+         'unified_wavenumbers_ascending': c.Forall(0, N - 1, lambda i: G[i] <= G[i + 1])}
+    if c.mode == 'conc':
+        import numpy as np
+        grids = [v0.self._wn_dict['range%d' % k] for k in range(R)]
+        allwn = np.concatenate([np.asarray(g['wn'], dtype=float) for g in grids])
+        order = np.argsort(allwn, kind='stable')
+        X = np.asarray(s._xsec_grid, dtype=float)
+        ok = X.shape == (NT, len(allwn)) and np.array_equal(np.asarray(G, dtype=float), allwn[order])
+        if ok and len(set(allwn.tolist())) == len(allwn):
+            for t in range(NT):
+                sig = np.concatenate([np.asarray(g['Tsigma'][t][1], dtype=float) for g in grids])
+                ok = ok and np.array_equal(X[t], sig[order])
+        d['every_cross_section_stays_with_its_own_wavenumber_and_temperature'] = bool(ok)
+        return d
+    pf = c.last_perm[0]
+    offs = [0]
+    for x in Ls:
+        offs.append(offs[-1] + x)
+
+    def src(arrs, j):
+        """element j of the concatenation of the per-range arrays"""
+        out = arrs[-1][j - offs[R - 1]]
+        for k in range(R - 2, -1, -1):
+            out = c.If(j < offs[k + 1], arrs[k][j - offs[k]], out)
+        return out
+    wns = [v0.self._wn_dict['range%d' % k].wn for k in range(R)]
+    d['wavenumbers_are_those_of_the_ranges'] = c.Forall(0, N, lambda i: G[i] == src(wns, pf(i)))
+    d['every_cross_section_stays_with_its_own_wavenumber_and_temperature'] = c.And(*[
+        c.Forall(0, N, lambda i, t=t: s._xsec_grid[t, i] == src([v0.self._wn_dict['range%d' % k].Tsigma[t][1] for k in range(R)], pf(i))) for t in range(NT)])
+    return d
+
+
+def _hf_native(c, p):
+    import numpy as np
+    from taurex.cia.hitrancia import HitranCIA
+    fx = c.values
+    s = p['self']
+
+    class _G:
+        pass
+    o = HitranCIA.__new__(HitranCIA)
+    for nm in ('debug', 'info', 'warning', 'error', 'critical'):
+        setattr(o, nm, lambda *a, **k: None)
+    o._wn_dict = {}
+    for k, g in s['_wn_dict'].items():
+        G_ = _G()
+        G_.wn = np.array(g['wn'], dtype=float)
+        G_.Tsigma = [(float(t), np.array(sg, dtype=float)) for t, sg in g['Tsigma']]
+        o._wn_dict[k] = G_
+    o._temperature_grid = [float(t) for t in s['_temperature_grid']]
+    o.compute_final_grid()
+    return None, dict(p, self=dict(s, _wavenumber_grid=np.asarray(o._wavenumber_grid), _xsec_grid=np.asarray(o._xsec_grid)))
+
+
+_HF_CASES = [dict(R=r, NT=t) for r, t in ((1, 1), (2, 1), (2, 2), (3, 2))]
+
+
+def _hf_gen(rng):
+    cs = dict(rng.choice(_HF_CASES))
+    kind = rng.choice(['disjoint', 'overlapping', 'out_of_order'])
+    pts = sorted(set(round(rng.uniform(10, 9000), 3) for _ in range(rng.randint(cs['R'], 4 * cs['R']))))
+    while len(pts) < cs['R']:
+        pts.append(pts[-1] + 1.0)
+    R = cs['R']
+    if kind == 'overlapping':
+        groups = [pts[k::R] for k in range(R)]
+    else:
+        cut = sorted(rng.sample(range(1, len(pts)), R - 1)) if R > 1 else []
+        groups = [pts[a:b] for a, b in zip([0] + cut, cut + [len(pts)])]
+        if kind == 'out_of_order':
+            rng.shuffle(groups)
+    for k, g in enumerate(groups):
+        cs['L%d' % k] = len(g)
+        cs['wn%d' % k] = g
+        for t in range(cs['NT']):
+            cs['s%d_%d' % (k, t)] = [10 ** rng.uniform(-50, -40) for _ in g]
+    for t in range(cs['NT']):
+        cs['T%d' % t] = 100.0 * (t + 1)
+    return cs
+
+
+HFG = Unit('C14', 'taurex.cia.hitrancia:HitranCIA.compute_final_grid', _hf_params, post=_hf_post, cases=_HF_CASES, bounds=[{}],
+           pre=lambda c, v: {'ranges_not_empty': c.And(*[c.Len(v.self._wn_dict['range%d' % k]['wn'] if c.mode == 'conc' else v.self._wn_dict['range%d' % k].wn) >= 1
+                                                          for k in range(_hf_fx(c)['R'])])},
+           frame_attrs=[('self', '_wavenumber_grid'), ('self', '_xsec_grid')], native=_hf_native, gen=_hf_gen, safety=('index',),
+           short='HitranCIA.compute_final_grid',
+           doc='the wavenumber ranges of a HITRAN file (1..3 ranges of any lengths, disjoint, overlapping or out of order; 1..2 temperatures) '
+               'unified: one ascending wavenumber grid holding every point of every range, and at every temperature each cross-section at the '
+               'place of its own wavenumber (np.concatenate / argsort: assumed models)')
